@@ -1,0 +1,104 @@
+// Copyright ©2026 The Gonum Authors. All rights reserved.
+// Use of this source code is governed by a BSD-style
+// license that can be found in the LICENSE file.
+
+//go:build verif
+
+package gonum
+
+// Machine-checked contracts for LAPACK routines of this package (verification
+// hook, build tag verif; this file contains comments only). The contract
+// language and the checker are described in /verif/DESIGN.md.
+//
+// What is stated: the documented argument contract (valid), that the routine
+// panics with a package error exactly when it is violated and before any
+// store, that it never faults otherwise, that every nested BLAS / LAPACK call
+// receives arguments satisfying the callee's own contract (for every shape,
+// leading dimension and admissible workspace length, blocked and unblocked
+// paths), the write frame, and structural postconditions such as a valid
+// pivot sequence. Numerical clauses (backward stability) are not stated.
+
+//@ spec ge(a []float64, r int, c int, ld int) bool = len(a) >= ld*(r-1)+c
+//@ spec flagT(t int) bool = t == blas.NoTrans || t == blas.Trans || t == blas.ConjTrans
+//@ spec flagUL(u int) bool = u == blas.Upper || u == blas.Lower
+//@ spec flagD(d int) bool = d == blas.NonUnit || d == blas.Unit
+//@ spec flagS(s int) bool = s == blas.Left || s == blas.Right
+
+// ---- LU ------------------------------------------------------------------------
+
+// ensures: the pivot sequence is valid (row j is exchanged with a row at or below it).
+
+//@ func Implementation.Dgetf2 props: C02 C07(safety)
+//@ valid m >= 0 && n >= 0 && lda >= max(1, n) &&
+//@       (min(m, n) == 0 || (ge(a, m, n, lda) && len(ipiv) == min(m, n)))
+//@ panics iff !valid, before-writes
+//@ writes a[i*lda+j] for i in 0..m, j in 0..n ; ipiv[j] for j in 0..min(m, n)
+//@ ensures forall(j, 0, min(m, n), j <= ipiv[j] && ipiv[j] < m)
+
+//@ func Implementation.Dgetrf props: C02 C07(safety)
+//@ valid m >= 0 && n >= 0 && lda >= max(1, n) &&
+//@       (min(m, n) == 0 || (ge(a, m, n, lda) && len(ipiv) == min(m, n)))
+//@ panics iff !valid, before-writes
+//@ writes a[i*lda+j] for i in 0..m, j in 0..n ; ipiv[j] for j in 0..min(m, n)
+//@ ensures forall(j, 0, min(m, n), j <= ipiv[j] && ipiv[j] < m)
+//@ loop 1: invariant forall(t, 0, min(j, min(m, n)), t <= ipiv[t] && ipiv[t] < m)
+//@ loop 2: invariant forall(t, 0, j, t <= ipiv[t] && ipiv[t] < m)
+//@ invariant forall(t, j, i, t <= ipiv[t] && ipiv[t] < m)
+//@ invariant forall(t, i, j+jb, t-j <= ipiv[t] && ipiv[t] < m-j)
+
+//@ func Implementation.Dlaswp props: C02 C07(safety)
+//@ valid n >= 0 && k1 >= 0 && k2 >= k1 && lda >= max(1, n) && len(a) >= k2*lda+n && len(ipiv) == k2+1 && (incX == 1 || incX == -1)
+//@ requires forall(k, k1, k2+1, 0 <= ipiv[k] && len(a) >= ipiv[k]*lda+n)
+//@ panics iff !valid, before-writes
+//@ writes a[i*lda+j] for i in 0..len(a), j in 0..n if (k1 <= i && i <= k2) || exists(k, k1, k2+1, ipiv[k] == i)
+
+//@ func Implementation.Dgetrs props: C02 C07(safety)
+//@ valid flagT(trans) && n >= 0 && nrhs >= 0 && lda >= max(1, n) && ldb >= max(1, nrhs) &&
+//@       (n == 0 || nrhs == 0 || (ge(a, n, n, lda) && ge(b, n, nrhs, ldb) && len(ipiv) == n))
+//@ requires forall(k, 0, n, 0 <= ipiv[k] && ipiv[k] < n)
+//@ panics iff !valid, before-writes
+//@ writes b[i*ldb+j] for i in 0..n, j in 0..nrhs
+
+//@ func Implementation.Dgesv props: C02 C07(safety)
+//@ valid n >= 0 && nrhs >= 0 && lda >= max(1, n) && ldb >= max(1, nrhs) &&
+//@       (n == 0 || nrhs == 0 || (ge(a, n, n, lda) && len(ipiv) == n && ge(b, n, nrhs, ldb)))
+//@ panics iff !valid, before-writes
+//@ writes a[i*lda+j] for i in 0..n, j in 0..n ; ipiv[j] for j in 0..n ; b[i*ldb+j] for i in 0..n, j in 0..nrhs
+
+//@ func Implementation.Dgetri props: C02 C07(safety)
+//@ valid n >= 0 && lda >= max(1, n) && (lwork >= max(1, n) || lwork == -1) && len(work) >= max(1, lwork) &&
+//@       (n == 0 || lwork == -1 || (ge(a, n, n, lda) && len(ipiv) == n))
+//@ requires forall(k, 0, n, 0 <= ipiv[k] && ipiv[k] < n)
+//@ panics iff !valid, before-writes
+//@ writes a[i*lda+j] for i in 0..n, j in 0..n if lwork != -1 ; work[*]
+
+// ---- Cholesky --------------------------------------------------------------------
+
+//@ func Implementation.Dpotf2 Implementation.Dpotrf props: C02 C07(safety)
+//@ valid flagUL(ul) && n >= 0 && lda >= max(1, n) && (n == 0 || ge(a, n, n, lda))
+//@ panics iff !valid, before-writes
+//@ writes a[i*lda+j] for i in 0..n, j in 0..n if (ul == blas.Upper && j >= i) || (ul == blas.Lower && j <= i)
+
+//@ func Implementation.Dpotrs props: C02 C07(safety)
+//@ valid flagUL(uplo) && n >= 0 && nrhs >= 0 && lda >= max(1, n) && ldb >= max(1, nrhs) &&
+//@       (n == 0 || nrhs == 0 || (ge(a, n, n, lda) && ge(b, n, nrhs, ldb)))
+//@ panics iff !valid, before-writes
+//@ writes b[i*ldb+j] for i in 0..n, j in 0..nrhs
+
+// ---- triangular ------------------------------------------------------------------
+
+//@ func Implementation.Dtrti2 Implementation.Dtrtri props: C02 C07(safety)
+//@ valid flagUL(uplo) && flagD(diag) && n >= 0 && lda >= max(1, n) && (n == 0 || ge(a, n, n, lda))
+//@ panics iff !valid, before-writes
+//@ writes a[i*lda+j] for i in 0..n, j in 0..n if (uplo == blas.Upper && j >= i) || (uplo == blas.Lower && j <= i)
+
+//@ func Implementation.Dtrtrs props: C02 C07(safety)
+//@ valid flagUL(uplo) && flagT(trans) && flagD(diag) && n >= 0 && nrhs >= 0 && lda >= max(1, n) && ldb >= max(1, nrhs) &&
+//@       (n == 0 || (ge(a, n, n, lda) && ge(b, n, nrhs, ldb)))
+//@ panics iff !valid, before-writes
+//@ writes b[i*ldb+j] for i in 0..n, j in 0..nrhs
+
+//@ func Implementation.Dlauu2 Implementation.Dlauum props: C02 C07(safety)
+//@ valid flagUL(uplo) && n >= 0 && lda >= max(1, n) && (n == 0 || ge(a, n, n, lda))
+//@ panics iff !valid, before-writes
+//@ writes a[i*lda+j] for i in 0..n, j in 0..n if (uplo == blas.Upper && j >= i) || (uplo == blas.Lower && j <= i)
